@@ -319,4 +319,27 @@ PROPS = {
  'assumptions': ['a conforming BMC answers a list index past the end of the record data with a normal completion code and no data (IPMI 22.15), and numbers '
                  "entity instances from 1 with 'instance start' selecting the first one reported (DCMI 6.5.2 as read by the library)",
                  'cipher suite record data is shorter than 1024 bytes (see note)']},
+    "C13": {
+        "claim": "PARTIAL. Proved on a tick-based time model of backoff.Retry(op, backoff.WithContext(b, ctx)) with every attempt under context.WithTimeout(ctx, T): for EVERY behaviour of the BMC (any stream of attempt durations, outcomes and back-off proposals) the call returns no later than max(now, deadline) within deadline-now+1 iterations, reports success only if an attempt received a final response, and with an expired context returns at once with an error (returns_by_deadline, expired_context, no_false_success). The model's assumptions A1-A3 (Send honours its context's deadline, back-off sleeps honour the context, an attempt takes at least a tick) are tied to the source by regenerated syntactic facts (3 WithTimeout calls all on the caller's ctx; 4 Retry calls all under WithContext(_, ctx); both socket deadlines set from the context). What the model cannot exhibit - socket deadlines, timers, the scheduler - is exercised by the `time` scenario over REAL UDP sockets (no hook): session-less command, handshake, in-session command, close, SDR retrieval x {black hole, reply after the per-attempt timeout, garbage, busy forever, truncated handshake replies} x several timeout/deadline ratios incl. an already expired context, verdict: returned by deadline + 250 ms with an error.",
+        "note": "trusted: Lean kernel; the time model's assumptions A1-A3 (runtime behaviour of net, context and time packages and of cenkalti/backoff, modelled from source); factgen's syntactic facts; wall-clock measurements on a possibly loaded host (250 ms allowance). Contexts cancelled without a deadline are outside the property.",
+        "technique": "Lean 4 proof over a time model (induction on the remaining time) + regenerated syntactic facts + wall-clock runs over real UDP sockets",
+        "ref": "§5 C13",
+        "proofs": ["Bmc.Proofs.C13"],
+        "scenarios": ["time"],
+        "rule": "5 blocking calls x 5 fault patterns (truncation for the two session-less paths) x 3 (thorough 7) timeout/deadline ratios incl. deadline 0, plus well-behaved controls; each op runs against its own UDP socket pair. Non-trivial = deadline in the future with a fault injected; distinct = distinct op line.",
+        "modelled": ["backoff.Retry / WithContext, context.WithTimeout nesting and transport.Send deadlines as a tick model; NOT verified: the Go runtime, net and timers"],
+        "assumptions": ["A1 Send returns by its context's deadline", "A2 back-off sleeps are bounded by the context", "A3 every attempt takes at least one tick"],
+    },
+    "C19": {
+        "claim": "PARTIAL. isolation: for state machines whose steps read and write only their own connection's state (shared tables read-only), under EVERY interleaving each connection's outputs and final state equal those of its solo run (induction over the schedule); the premise is tied to the source by the regenerated fact that the only function of the module writing a package-level variable outside init is RegisterOEMPayloadDescriptor (documented as not concurrency-safe). What the model cannot exhibit - the Go memory model and scheduler - is exercised by the `conc` scenario built with the race detector: N = 2,4,8 (thorough 2..16) goroutines each running a seeded workload (session-less command, handshakes over three suites, in-session commands incl. retried ones, closes) against its own reference BMC; every goroutine's results and its BMC's decoded request log must equal the same workload run alone, and the race detector must stay silent.",
+        "note": "trusted: Lean kernel; factgen's scan for package-level writes (assignments, ++/--, map element writes, delete; method calls on shared objects such as Prometheus vectors are trusted to be internally synchronised); the race detector only sees the schedules that actually occur",
+        "technique": "Lean 4 proof (isolation under arbitrary interleaving) + regenerated no-shared-writes fact + race-detector runs compared with sequential runs",
+        "ref": "§5 C19",
+        "proofs": ["Bmc.Proofs.C19"],
+        "scenarios": ["conc"],
+        "race": True,
+        "rule": "N in {2,4,8} x 3 seeds (thorough N in {2,3,4,6,8,12,16} x 50 seeds) concurrent workloads, each also re-run alone for comparison. Non-trivial = every op; distinct = distinct (N, seed).",
+        "modelled": ["connections as independent state machines; NOT verified: the Go memory model"],
+        "assumptions": ["the Register* functions documented as not concurrency-safe are not part of the workloads"],
+    },
 }
